@@ -5,10 +5,14 @@ mod builders;
 mod convert;
 mod decode;
 mod dispatch;
+mod dump;
 mod gradual;
+mod lifecycle;
 mod modsrep;
 mod scoregen;
 mod settings;
+mod strains;
+mod strainsvec;
 mod util;
 
 fn main() {
@@ -26,6 +30,13 @@ fn main() {
         "dispatch-replay" => dispatch::main(rest),
         "builders-replay" => builders::main(rest),
         "attrs-replay" => attrs::main(rest),
+        "dump-results" => dump::main(rest),
+        "strains-replay" => strains::main(rest),
+        "lifecycle-replay" => lifecycle::main(rest),
+        "pathbuf-replay" => lifecycle::pathbuf_main(rest),
+        "miri-scenarios" => lifecycle::miri_scenarios(rest),
+        "miri-run" => lifecycle::miri_run(rest),
+        "strainsvec-replay" => strainsvec::main(rest),
         "mods-replay" => modsrep::main(rest),
         "convert-replay" => convert::replay_main(rest),
         "convert-record" => convert::record_main(rest),
